@@ -217,3 +217,52 @@ Lemma C43_p255_invalid_lemma :
   let pl := repeat 255 44 ++ [0] ++ repeat 255 255 in
   wf_bytes pl = true /\ valid_padding pl = false /\ remove_padding pl = (firstn 299 pl, 0).
 Proof. vm_compute. repeat split; reflexivity. Qed.
+
+(* ---- the CBC branch of halfConn.decrypt ---- *)
+Lemma cbc_record_ok_spec vers clen macSize full :
+  wf_bytes full = true -> Z.of_nat (length full) < 2^31 -> 0 <= clen -> 0 <= macSize ->
+  cbc_record_ok vers clen macSize full = spec_record_ok vers clen macSize full.
+Proof.
+  intros Hwf Hlen Hc Hm. unfold cbc_record_ok, spec_record_ok.
+  destruct (vers =? 768) eqn:Ev.
+  - unfold remove_padding_ssl30. destruct (rev full) as [|p r] eqn:Er.
+    + assert (full = []) by (destruct full; [reflexivity|]; apply (f_equal (@length Z)) in Er; rewrite rev_length in Er; discriminate).
+      subst. reflexivity.
+    + assert (Hp : byte p).
+      { assert (Forall byte (p :: r)) by (rewrite <- Er; apply Forall_rev, wf_bytes_Forall; exact Hwf).
+        inversion H; assumption. }
+      unfold byte in Hp.
+      destruct (p + 1 >? Z.of_nat (length full)) eqn:Eg.
+      * rewrite Z.gtb_ltb in Eg. apply Z.ltb_lt in Eg. simpl.
+        destruct (Z.leb_spec (p + 1) (Z.of_nat (length full))); [lia|reflexivity].
+      * rewrite Z.gtb_ltb in Eg. apply Z.ltb_ge in Eg.
+        rewrite Z.eqb_refl. cbn [andb]. rewrite firstn_length.
+        destruct (Z.leb_spec (p + 1) (Z.of_nat (length full))); [|lia]. cbn [andb].
+        rewrite Nat.min_l by lia.
+        rewrite Z2Nat.id by lia.
+        destruct (Z.eqb_spec (Z.of_nat (length full) - (p + 1)) (clen + macSize));
+          destruct (Z.eqb_spec (p + 1) (Z.of_nat (length full) - clen - macSize)); try reflexivity; lia.
+  - rewrite (remove_padding_exact full Hwf Hlen). unfold spec_remove.
+    destruct (rev full) as [|p r] eqn:Er; [reflexivity|].
+    assert (Hp : byte p).
+    { assert (Forall byte (p :: r)) by (rewrite <- Er; apply Forall_rev, wf_bytes_Forall; exact Hwf).
+      inversion H; assumption. }
+    unfold byte in Hp.
+    destruct (valid_padding full) eqn:Evp.
+    + rewrite Z.eqb_refl. cbn [andb]. rewrite firstn_length.
+      assert (p + 1 <= Z.of_nat (length full)).
+      { unfold valid_padding in Evp. rewrite Er in Evp. apply andb_true_iff in Evp. destruct Evp as [E _].
+        apply Z.leb_le in E. exact E. }
+      rewrite Nat.min_l by lia.
+      destruct (Z.eqb_spec (Z.of_nat (length full - Z.to_nat (p + 1))) (clen + macSize));
+        destruct (Z.eqb_spec (p + 1) (Z.of_nat (length full) - clen - macSize)); try reflexivity; lia.
+    + reflexivity.
+Qed.
+
+Lemma prop_C43_record_of_model vers clen full :
+  wf_bytes full = true -> Z.of_nat (length full) < 2^31 -> 0 <= clen ->
+  prop_C43 (VL [VZ 2; VZ vers; VZ clen; VB full]) (run_C43 (VL [VZ 2; VZ vers; VZ clen; VB full])) = true.
+Proof.
+  intros H1 H2 H3. unfold prop_C43, run_C43. rewrite (cbc_record_ok_spec vers clen 20 full H1 H2 H3 ltac:(lia)).
+  apply val_eqb_refl.
+Qed.
